@@ -10,6 +10,7 @@ import (
 	"path/filepath"
 	"sort"
 	"strings"
+	"syscall"
 	"time"
 
 	"github.com/KevoDB/kevo/pkg/zzverif/vsched"
@@ -276,8 +277,35 @@ func Open(name string) (*File, error) {
 	return wrap(f, name, false), nil
 }
 
+// Jail: while set, every call that would create, change or remove something outside the jail fails with a
+// permission error, the way it would on a machine where only the database directory is writable. (Checks that
+// damage stored absolute paths use it: a database opened with a path damaged into "/dew/shm/..." must not litter
+// the file system of the machine the check runs on.) The bloom filter's temporary files under TempDir stay allowed.
+var jail string
+
+func SetJail(root string) { jail = root }
+
+func jailed(op, name string) error {
+	if jail == "" {
+		return nil
+	}
+	abs, err := filepath.Abs(name)
+	if err != nil {
+		return nil
+	}
+	if abs == jail || strings.HasPrefix(abs, jail+string(filepath.Separator)) || strings.HasPrefix(abs, os.TempDir()+string(filepath.Separator)) {
+		return nil
+	}
+	return &os.PathError{Op: op, Path: name, Err: syscall.EACCES}
+}
+
 func OpenFile(name string, flag int, perm FileMode) (*File, error) {
 	mut := flag&(O_CREATE|O_TRUNC) != 0
+	if mut || flag&(O_WRONLY|O_RDWR|O_APPEND) != 0 {
+		if err := jailed("open", name); err != nil {
+			return nil, err
+		}
+	}
 	if mut {
 		dirPoint(name, true)
 	} else {
@@ -317,6 +345,9 @@ func CreateTemp(dir, pattern string) (*File, error) {
 func MkdirTemp(dir, pattern string) (string, error) { return os.MkdirTemp(dir, pattern) }
 
 func Mkdir(name string, perm FileMode) error {
+	if err := jailed("mkdir", name); err != nil {
+		return err
+	}
 	dirPoint(name, true)
 	err := os.Mkdir(name, perm)
 	if r, rec := rel(name); rec && err == nil {
@@ -330,6 +361,9 @@ func MkdirAll(name string, perm FileMode) error {
 		point(name+"/", false)
 		return nil
 	}
+	if err := jailed("mkdir", name); err != nil {
+		return err
+	}
 	dirPoint(name, true)
 	err := os.MkdirAll(name, perm)
 	if r, rec := rel(name); rec && err == nil {
@@ -339,6 +373,9 @@ func MkdirAll(name string, perm FileMode) error {
 }
 
 func Remove(name string) error {
+	if err := jailed("remove", name); err != nil {
+		return err
+	}
 	dirPoint(name, true)
 	err := os.Remove(name)
 	if r, rec := rel(name); rec && err == nil {
@@ -348,6 +385,9 @@ func Remove(name string) error {
 }
 
 func RemoveAll(name string) error {
+	if err := jailed("removeall", name); err != nil {
+		return err
+	}
 	dirPoint(name, true)
 	err := os.RemoveAll(name)
 	if r, rec := rel(name); rec && err == nil {
@@ -357,6 +397,12 @@ func RemoveAll(name string) error {
 }
 
 func Rename(o, n string) error {
+	if err := jailed("rename", o); err != nil {
+		return err
+	}
+	if err := jailed("rename", n); err != nil {
+		return err
+	}
 	dirPoint(o, true)
 	if filepath.Dir(filepath.Clean(o)) != filepath.Dir(filepath.Clean(n)) {
 		dirPoint(n, true)
@@ -381,6 +427,9 @@ func ReadDir(name string) ([]DirEntry, error) {
 func ReadFile(name string) ([]byte, error) { point(name, false); return os.ReadFile(name) }
 
 func WriteFile(name string, data []byte, perm FileMode) error {
+	if err := jailed("open", name); err != nil {
+		return err
+	}
 	f, err := OpenFile(name, O_WRONLY|O_CREATE|O_TRUNC, perm)
 	if err != nil {
 		return err
